@@ -512,6 +512,7 @@ def generate(unit_dir, vacuity=False, mutate=None):
         tpl = f.read().split('\n')
     out = Out()
     functions = []
+    lost_anchors = []
     i = 0
     ctx = None
     fn_rx = re.compile(r'\bfn\s+([A-Za-z_][A-Za-z0-9_]*)')
@@ -639,7 +640,10 @@ def generate(unit_dir, vacuity=False, mutate=None):
                         rx = rx[1:-1]
                     mm = re.search(rx, text, re.M)
                     if not mm:
-                        raise SliceError(f'{nm}: anchor /{rx}/ not found')
+                        # a proof hint whose anchor statement changed is dropped (the obligation is then
+                        # attempted without it) -- never a reason to stop looking at a changed function
+                        lost_anchors.append(f'{nm}: /{rx}/')
+                        continue
                     if kind == 'before':
                         off = text.rfind('\n', 0, mm.start()) + 1
                     else:
@@ -708,7 +712,7 @@ def generate(unit_dir, vacuity=False, mutate=None):
         out.add_tpl(line, i + 1, ctx)
         i += 1
     text = '\n'.join(l for l, _ in out.lines) + '\n'
-    return {'text': text, 'origins': [o for _, o in out.lines], 'functions': functions}
+    return {'text': text, 'origins': [o for _, o in out.lines], 'functions': functions, 'lost_anchors': lost_anchors}
 
 
 def name_return(text, name):
